@@ -12,8 +12,8 @@ flatten / filter_map / take ...), every line's io::Result is tested and its Err 
 and every line that parses is pushed (the only skips are the blank-line and the JSON-error edges).
 Noted, not decided: an unparsable WAL line is skipped by from_wal_file (the archive then lacks it); a decode error in recover_all skips that archive; losslessness of the MessagePack re-encoding; torn last lines.
 """
-FLOOR = 5
-REQUIRED = ["C19.a", "C19.b", "C19.c", "C19.d", "C19.e"]
+FLOOR = 6
+REQUIRED = ["C19.a", "C19.b", "C19.c", "C19.d", "C19.e", "C19.f"]
 
 
 def str_const_args(body):
@@ -141,9 +141,31 @@ def run(ctx):
         if not (has_origin(La, "call", name_re=r"parse") or has_origin(La, None, proj_contains=["@Ok"])):
             bad.append(("archive-other-id", "archive_log is called with %s, not the parsed file id" % fmt_leaves(La), None))
         # same shard: archiver constructed with self.shard_id
-        nw = one(c, r"WalArchiver::new$")
-        if not has_origin(c.origins(nw.args[0]), "param", "self", proj_contains=[".shard_id"]):
-            bad.append(("archiver-other-shard", "the cleaner's archiver is built for another shard", None))
+        nws = [x for x in c.calls if not x.cleanup and re.search(r"WalArchiver::(new|with_dirs)$", x.nname)]
+        if nws:
+            for nw in nws:
+                if not has_origin(c.origins(nw.args[0]), "param", "self", proj_contains=[".shard_id"]):
+                    bad.append(("archiver-other-shard", "the cleaner's archiver is built for another shard", None))
+        else:
+            # the archiver is a field built by the constructors: for the shard the cleaner is built for
+            n_ = 0
+            for k in sorted(F.keys()):
+                if k.startswith("bin:") or not re.search(r"wal_cleaner::WalCleaner::\w+$", k):
+                    continue
+                cb = F.fn_exact(k)
+                for (bb, j, v, dst) in cb.aggregates("WalCleaner"):
+                    fl = dict(zip(v.get("fields", []), v["o"]))
+                    if "archiver" not in fl or "shard_id" not in fl:
+                        continue
+                    n_ += 1
+                    sid = {fmt_leaves([l]) for l in cb.origins(fl["shard_id"])}
+                    for l in cb.origins(fl["archiver"]):
+                        if l[0] == "call" and "WalArchiver::" in l[1]:
+                            got = {fmt_leaves([x]) for x in cb.origins(cb.call_at(l[2]).args[0])}
+                            if got != sid:
+                                bad.append(("archiver-other-shard", "WalCleaner::%s builds its archiver for %s but cleans shard %s" % (k.split("::")[-1], sorted(got), sorted(sid)), None))
+            if n_ < 1:
+                raise AnchorMissing("where the cleaner's archiver is built (neither in cleanup_up_to nor in a constructor)")
         return bad
     ctx.run("C19.b", "K11 SIB", "cleaner deletion loop vs archiver loop", "whatever is deleted was eligible for archiving under the same bound", b_)
 
@@ -222,6 +244,80 @@ def run(ctx):
         inst.sites += [sp(l, s.bb) for s in srt] + [sp(r, la.bb), sp(r, ext.bb)]
         return bad
     ctx.run("C19.d", "K1 DOM", "WalArchiveRecovery::recover_all / list_archives", "archives are decoded in sorted (log id) order", d_)
+
+    def f_(inst):
+        """`deleted only after an archive containing all of its entries has been written`: the archive pass must look at the very
+        directory the deletion pass lists. The cleaner's archiver therefore reads the cleaner's own wal_dir: for every constructor
+        of WalCleaner the archiver's WAL directory has the same provenance as the `wal_dir` field, and cleanup_up_to uses that
+        archiver (not one built from the global configuration on the spot)."""
+        bad = []
+        b = F.fn("WalCleaner::cleanup_up_to")
+        ar = one(b, r"WalArchiver::archive_logs_up_to$")
+        L = b.origins(ar.args[0])
+        own = any(l[0] == "param" and l[1] == "self" for l in L)
+        built_here = [l for l in L if l[0] == "call" and "WalArchiver::" in l[1]]
+        inst.sites.append("%s: archiver <- %s" % (sp(b, ar.bb), fmt_leaves(L)))
+
+        def dir_provenance(body, c):
+            """where the archiver built by call c reads its logs from: 'config' (WalArchiver::new), or the leaves of with_dirs' wal dir argument"""
+            if c.nname.endswith("WalArchiver::new"):
+                return {"config"}
+            if c.nname.endswith("WalArchiver::with_dirs"):
+                return {"param:" + l[1] if l[0] == "param" else ("config" if l[0] == "static" and "CONFIG" in l[1] else ("config" if l[0] == "call" and "join" in l[1] and any(x[0] == "static" for a_ in body.call_at(l[2]).args for x in body.origins(a_)) else fmt_leaves([l]))) for l in body.origins(c.args[1])}
+            return {"?"}
+
+        def field_provenance(body, op):
+            out = set()
+            for l in body.origins(op):
+                if l[0] == "param":
+                    out.add("param:" + l[1])
+                elif l[0] == "static" and "CONFIG" in l[1]:
+                    out.add("config")
+                elif l[0] == "call":
+                    cc = body.call_at(l[2])
+                    sub = set()
+                    for a_ in cc.args:
+                        for x in body.origins(a_):
+                            if x[0] == "static" and "CONFIG" in x[1]:
+                                sub.add("config")
+                            elif x[0] == "param":
+                                sub.add("param:" + x[1])
+                            elif x[0] == "call":
+                                for a2 in body.call_at(x[2]).args:
+                                    for y in body.origins(a2):
+                                        if y[0] == "static" and "CONFIG" in y[1]:
+                                            sub.add("config")
+                    out |= (sub - {"param:shard_id"}) or {"?"}
+            return out
+        if built_here and not own:
+            # the archiver is built in cleanup_up_to: it must be given self.wal_dir
+            for l in built_here:
+                c = b.call_at(l[2])
+                if c.nname.endswith("WalArchiver::new") or not any(x[0] == "param" and x[1] == "self" and ".wal_dir" in (x[2] if len(x) > 2 else ()) for a_ in c.args for x in b.origins(a_)):
+                    bad.append(("archiver-other-directory:cleanup_up_to", "cleanup_up_to archives with an archiver built from the global configuration while it deletes from self.wal_dir: with a cleaner for another directory the logs are deleted without an archive", sp(b, c.bb)))
+            return bad
+        n = 0
+        for k in sorted(F.keys()):
+            if k.startswith("bin:") or not re.search(r"wal_cleaner::WalCleaner::\w+$", k):
+                continue
+            cb = F.fn_exact(k)
+            for (bb, j, v, dst) in cb.aggregates("WalCleaner"):
+                fl = dict(zip(v.get("fields", []), v["o"]))
+                if "archiver" not in fl or "wal_dir" not in fl:
+                    continue
+                n += 1
+                wd = field_provenance(cb, fl["wal_dir"])
+                ad = set()
+                for l in cb.origins(fl["archiver"]):
+                    if l[0] == "call":
+                        ad |= dir_provenance(cb, cb.call_at(l[2]))
+                inst.sites.append("%s: wal_dir <- %s, archiver reads <- %s" % (k.split("::")[-1], sorted(wd), sorted(ad)))
+                if wd != ad:
+                    bad.append(("archiver-other-directory:%s" % k.split("::")[-1], "WalCleaner::%s builds a cleaner that deletes from %s but archives from %s" % (k.split("::")[-1], sorted(wd), sorted(ad)), sp(cb, bb)))
+        if n < 2:
+            raise AnchorMissing("WalCleaner constructors with an archiver field (found %d)" % n)
+        return bad
+    ctx.run("C19.f", "K11 SIB", "WalCleaner constructors / cleanup_up_to", "the archive pass reads the directory the deletion pass lists", f_)
 
     ctx.note("WalArchive::from_wal_file logs and skips an unparsable WAL line: the archive then lacks it while the file is deleted (fault clause, not armed)")
     ctx.note("WalArchiveRecovery::recover_all logs and skips an archive that fails to decode (fault clause, not armed)")
